@@ -95,7 +95,7 @@ PROPS = {
         assumptions=["bed_reader(count_A1=False) reports 00->0, 10->1, 11->2, 01->-127 (exercised differentially)"],
     ),
     "C17": dict(
-        units=[],
+        units=["GenLpl"],
         props_files=["Props/C17.v"],
         driver="c17",
         rule="(a) duck-typed variants with 0..4 (thorough 0..8) alternate alleles, ploidy 1/2 (3,4 for rejection), missing alleles, "
